@@ -148,6 +148,9 @@ def execute(mat, ctx):
             i = rng.randrange(L)
             qs.append(q[:i] + rng.choice([x for x in "ACGT" if x != q[i]]) + q[i + 1:])
         qs += [s + s[:1], d, "", rot_left(s, rng.randrange(n))]
+        # strings that are not DNA at all, as pasted from a document: an accented letter, a no-break space, Greek / Cyrillic
+        # look-alikes of A and C - each as long as a query that fits and one letter long
+        qs += [s[:max(0, min(n, 3) - 1)] + x for x in ("\u00e9", "\u00a0", "\u0391", "\u0421")] + ["\u0391"]
         if mat["i"] % 3 == 0:
             # a lower-case (soft-masked) record with lower-case queries, plus queries in the other case (which occur in no rotation)
             s = s.lower()
